@@ -95,6 +95,22 @@ pub fn check_entry(klen: usize, vlen: usize) -> Result<(), String> {
         }
         }
     }
+    // through a Sorter as well (entries are framed again in the chunk it writes at consumption):
+    // the boundary entry alone, and with its neighbours; one buffer that holds everything and one
+    // that forces a spill in between
+    if klen + vlen < (1 << 22) {
+        use crate::sorter_util::{run_sorter, Extraction, SorterCfg};
+        let alone = vec![entries[if klen > 0 { 1 } else { 0 }].clone()];
+        for (what, set) in [("alone", &alone), ("with its neighbours", &entries)] {
+            for budget in [1usize << 23, 1 << 10] {
+                let cfg = SorterCfg::scaled(budget, budget, false, 3, false);
+                let got = run_sorter(&cfg, set, Extraction::Stream)?;
+                if &got != set {
+                    return Err(format!("entry with key length {klen}, value length {vlen} {what} inserted into a Sorter (budget {budget}) is not returned as inserted"));
+                }
+            }
+        }
+    }
     let bytes = write_file(&cfg, &entries)?;
     for q in [Query::Scan { rev: false, mode: CursorMode::Fresh }, Query::Scan { rev: true, mode: CursorMode::Fresh }] {
         let got = run_query(&bytes, &q)?;
@@ -222,7 +238,7 @@ pub fn run(tier: Tier) -> i32 {
     }
     rep.acc.merge(a3);
     rep.acc.merge(big_thread.join().expect("big-entry thread panicked"));
-    rep.set("rule", json!("E4: all 2^32 length values through the verif re-export of the private codec: encode must produce 1..=5 bytes, and decode must return the value and consume exactly the encoded length on (i) the exact bytes, (ii) the bytes followed by 0xFF.., (iii) followed by 0x00..; E2: entries whose key or value length is 2^7, 2^14, 2^21 -1/0/+1 (plus one 2^28-byte value; thorough: 2^28 -1/0/+1 for keys and values) written through Writer, read back through Reader (both scans; alone in its file; and sharing one block with its neighbours, reached through GE/LE/EQ seeks) and decoded by the independent decoder; distinct_nontrivial = values needing >= 2 bytes plus boundary entries"));
+    rep.set("rule", json!("E4: all 2^32 length values through the verif re-export of the private codec: encode must produce 1..=5 bytes, and decode must return the value and consume exactly the encoded length on (i) the exact bytes, (ii) the bytes followed by 0xFF.., (iii) followed by 0x00..; E2: entries whose key or value length is 2^7, 2^14, 2^21 -1/0/+1 (plus one 2^28-byte value; thorough: 2^28 -1/0/+1 for keys and values) written through Writer, read back through Reader (both scans; alone in its file; and sharing one block with its neighbours, reached through GE/LE/EQ seeks) and decoded by the independent decoder, and inserted into a Sorter (alone and with neighbours, with and without a spill) and streamed back; distinct_nontrivial = values needing >= 2 bytes plus boundary entries"));
     rep.set("bound", json!({"values": "0..=2^32-1 (complete)", "api_boundary_entries": pairs.len() + quick_big.len(), "largest_api_length": lens.iter().max()}));
     rep.assume("API-level entries of 2^32-1 bytes are not run (>= 12 GiB of copies per case); that boundary is covered at codec level only");
     rep.finish()
